@@ -40,7 +40,7 @@ import (
 
 func init() {
 	lib.Register(&lib.Prop{ID: "C12", Level: "exploration", Run: run,
-		Sub: map[string]func([]string) int{"worker": worker}})
+		Sub: map[string]func([]string) int{"worker": worker, "concurrent": concurrentChild}})
 }
 
 // ---------------------------------------------------------------- sites
@@ -214,8 +214,12 @@ const (
 	clWrittenErr   = "written+err"      // status + body written, returns (0, err)
 	clWrittenFlErr = "written+flush+err"
 	clNoBody       = "written-nobody" // WriteHeader only, returns (0, nil)
-	clPanicB       = "panic-before"
-	clPanicA       = "panic-after"
+	// status + Content-Length + validators + a body that is NOT a valid template
+	// (unclosed action): where `templates` executes the body it may answer with
+	// an error instead; either way the response must be exactly one well-formed one
+	clWrittenBadTpl = "written+invalid-template"
+	clPanicB        = "panic-before"
+	clPanicA        = "panic-after"
 )
 
 // Behaviour is one script of the innermost handler with its reference.
@@ -317,6 +321,11 @@ func behaviours(seed uint64) []Behaviour {
 	add("w500", clWritten, 500, probe.Spec{Code: 500, Writes: w(700)})
 	add("w503-70000-flush", clWritten, 503, probe.Spec{Code: 503, Writes: w(-30000, -40000)})
 	add("w200-ce-deflate", clWritten, 200, probe.Spec{Code: 200, Hdr: [][2]string{{"Content-Encoding", "deflate"}}, Writes: w(400)}).HandlerCE = "deflate"
+	// --- written, but the body is not a valid template
+	badTpl := "<html><body>{{ .Unclosed action " + strings.Repeat("padding ", 30) + "</body></html>"
+	add("w200-cl-etag-invalid-template", clWrittenBadTpl, 200, probe.Spec{Code: 200, Text: badTpl,
+		Hdr: [][2]string{{"Content-Length", fmt.Sprint(len(badTpl))}, {"Etag", `"v1"`}, {"Last-Modified", "Mon, 02 Jan 2006 15:04:05 GMT"}, {"Accept-Ranges", "bytes"}}})
+	add("w404-cl-invalid-template", clWrittenBadTpl, 404, probe.Spec{Code: 404, Text: badTpl, Hdr: [][2]string{{"Content-Length", fmt.Sprint(len(badTpl))}}})
 	// --- header only
 	add("h204", clNoBody, 204, probe.Spec{Code: 204})
 	add("h304", clNoBody, 304, probe.Spec{Code: 304})
@@ -493,6 +502,11 @@ func run(c *lib.Ctx) {
 	}
 	wg.Wait()
 
+	cv, cn := runConcurrent(c)
+	all = append(all, cv...)
+	for k, n := range cn {
+		violN[k] += n
+	}
 	report(c, all, violN)
 
 	c.Exhaustive(!c.Quick())
@@ -507,6 +521,7 @@ func run(c *lib.Ctx) {
 	c.Floor("panic_before_500", 50)
 	c.Floor("liveness_ok", 100)
 	c.Floor("templates_buffered_paths", 50)
+	c.Floor("concurrent_bodies_verified", 200)
 	c.Assume("HTTP/1.1 over plaintext loopback only; one request in flight per process (required for exact attribution of net/http's process-wide 'superfluous WriteHeader' diagnostic)")
 	c.Assume("the innermost handler respects the contract: it either writes and returns 0, or returns >=400 without writing; returning 1xx-3xx without writing, writing and returning >=400, and hijacking are outside the statement and not generated")
 	c.Assume("HEAD responses and 204/304 carry no body by protocol: only status (and commit count) are compared there; response headers other than Content-Encoding are not compared (configured header changes are allowed by the statement)")
